@@ -2,7 +2,7 @@
 import ast
 
 from vstat.loader import AnalysisError
-from vstat.terms import builder, show, SELF, NONE, G, alts, walk, mentions, phi, strip_none
+from vstat.terms import IT, builder, show, SELF, NONE, G, alts, walk, mentions, phi, strip_none
 from vstat.guards import path_conditions
 from vstat.cfg import cfg_of
 from vstat import algebra
@@ -84,7 +84,7 @@ def dims(prog, rep):
         elif ("not", ("isnone", ck)) in pc:
             seen["cond"] = True
             sp = ("call", ("attr", SELF, "_split_in_intervals"), (data, i, ck), ())
-            ok = args == (("item", sp, 0), ("item", sp, 1), ("item", sp, 2), m, w) and not t[3] and rng_ok
+            ok = args == (IT(sp, 0), IT(sp, 1), IT(sp, 2), m, w) and not t[3] and rng_ok
             rep.check(ok, "C09.dims", f"{q}:conditional", site,
                       "distributions[i].fit(*_split_in_intervals(data, i, conditional_on[i]), method_i, weights_i)",
                       f"the conditional fit must split (data, i, conditional_on[i]) and pass the interval data, reference values and boundaries in order "
@@ -118,12 +118,12 @@ def split(prog, rep):
     ok_data = False
     if t[0] == "tuple" and len(t[1]) == 3:
         d0 = t[1][0]
-        if d0[0] == "comp" and d0[4] == ("item", sl, 0):
+        if d0[0] == "comp" and d0[4] == IT(sl, 0):
             i = ("idx", d0[3], "iter")
-            ok_data = d0[2] == ("sub", ("col", data, di), ("sub", ("item", sl, 0), i))
+            ok_data = d0[2] == ("sub", ("col", data, di), ("sub", IT(sl, 0), i))
     rep.check(ok_data, "C09.split", f"{q}:rows", fn.where(ret), "[data[mask, dist_idx] for mask in masks]",
               "each interval's data must be the rows of the SAME data matrix selected by that interval's mask, in column dist_idx")
-    ok_rest = t[0] == "tuple" and len(t[1]) == 3 and t[1][1] == ("item", sl, 1) and t[1][2] == ("item", sl, 2)
+    ok_rest = t[0] == "tuple" and len(t[1]) == 3 and t[1][1] == IT(sl, 1) and t[1][2] == IT(sl, 2)
     rep.check(ok_rest, "C09.split", f"{q}:order", fn.where(ret), "returns (interval data, reference values, boundaries)",
               "reference values and boundaries must be returned in that order, from the same slicing")
 
